@@ -153,6 +153,19 @@ def extract_behaviours(out, path):
     return n
 
 
+def extract_group(out, path):
+    seen = set()
+    with open(path, "w") as f:
+        for line in out.splitlines():
+            if line.startswith('<<"BEHAVIOUR", '):
+                s = json.loads(line.strip()[len('<<"BEHAVIOUR", '):-2])
+                if s in seen:
+                    continue
+                seen.add(s)
+                f.write(json.dumps(json.loads(s), separators=(",", ":")) + "\n")
+    return len(seen)
+
+
 def tlc_generate(name, module, cfg, seed, simulate=None, timeout=900, workers=1):
     """Behaviour generation: TLC prints one BEHAVIOUR line per behaviour (exhaustive BFS over a
     scripted configuration, or -simulate num,depth for random interleavings)."""
